@@ -416,9 +416,19 @@ def r3_one_template(R) -> None:
         for nm, fmt_node in (('equation', ne), ('code', nc)):
             v = kwarg_of(c, nm)
             okv = isinstance(v, ast.Name) and f.lf.defs_reaching(rp.id, v.id) == frozenset([fmt_node.id])
+            # a later definition of the same name made *from* it (`equation = tidy(equation)`, `code = code.replace(...)`) and
+            # reached by the formatted text: the text is positively rewritten after formatting, whatever else was restructured
+            rewritten_after = False
+            if isinstance(v, ast.Name) and not okv:
+                for d_ in f.lf.defs_reaching(rp.id, v.id):
+                    if d_ == fmt_node.id or d_ < 0:
+                        continue
+                    dv_ = f.lf.def_value(d_, v.id)
+                    if dv_ is not None and any(isinstance(y, ast.Name) and y.id == v.id for y in ast.walk(dv_)) and f.cfg.reaches(fmt_node.id, d_):
+                        rewritten_after = True
             R.check(okv, f.q, f'attached-{nm}', f'the {nm} attached to the symbol is the formatted template, unmodified',
                     f'`{nm}={text(v) if v is not None else "?"}` attached to the endogenous symbol is not (only) the result of template.format(...): it is rewritten '
-                    f'after formatting, so the normalised equation and the generated code no longer denote the same expression', where=f.where(rp))
+                    f'after formatting, so the normalised equation and the generated code no longer denote the same expression', where=f.where(rp), decided=rewritten_after)
     # terms = parse_equation_terms(<the same text the placeholders are cut from>)
     terms_src = None
     if isinstance(ite, ast.Name):
